@@ -94,9 +94,9 @@ class View:
                 s.cause = None
                 if k == "res" and not rc_on:
                     k = "ok"
-                if k == "sp" and s.out[1] == "nested_open":
+                if k == "sp" and s.out[1] in ("nested_open", "timeout"):
                     k = "exc"
-                    s.klass = s.out[2] if len(s.out) > 2 and s.out[2] else "UNKNOWN"
+                    s.klass = s.out[2] if len(s.out) > 2 and s.out[2] else ("UNKNOWN" if s.out[1] == "nested_open" else "TRANSIENT")
                 elif k in ("exc", "res"):
                     s.klass = s.out[1]
                 s.kind = k
@@ -220,6 +220,9 @@ class View:
             false.append("unknown")
         if s.i >= cfg["max_attempts"]:
             false.append("global")
+        aop = self.env.get("abort_after_op")
+        if aop is not None and s.i >= aop:
+            false.append("abort-requested")  # the abort flag was raised while this attempt was in flight
         band = False
         if s.t_fail >= self.deadline:
             false.append("deadline")
